@@ -22,10 +22,14 @@ LEVEL_TEXT = ("Theorems about the flex functions/kernels regenerated from collis
               "elements share a vertex or a vertex body; `_tie_break_fps` is a strict lexicographic order; exact write lists of `_write_candidate` (the (geom, flex, elem, vert) encodings) and of the "
               "guards of `_write_filtered_contacts` (incl. the includemargin rule) and `_equality_flex`; the trilinear basis is a non-negative partition of unity with linear precision; "
               "`_apply_face_forces` applies zero net force. Stage 3 of `_flex_broadphase` (geom centre vs triangle plane against the bounding radius) is sound for every supported geom type, and the bounding radius dominates the geom; a row of `_equality_flex` dropped for lack of njmax_nnz gets rownnz 0. Flex positions, edge "
-              "lengths/velocities, passive forces, edge-equality rows and contacts of the real code are compared with mujoco.mj_forward (sampled).")
+              "lengths/velocities, passive forces, edge-equality rows and contacts of the real code are compared with mujoco.mj_forward (sampled); the bending forces of dim=2 flexes with a NON-FLAT rest shape "
+              "(closed box / cylinder / ellipsoid shells, an open wavy sheet given as points and triangles; elastic2d bend / both, with and without damping and a pinned vertex, 1-2 worlds with a different state "
+              "each) are compared per world at float32 resolution (64 eps32 x (largest reference entry + cancellation scale of the bending sum)), so that the curved-reference term of every edge "
+              "(the signed 17th coefficient of its flex_bending block) is visible, next to flat grid / disc controls.")
 LEVEL_NOTE = ("C40_partial: two defects found by this check were repaired in /repo (\"fix: _flex_bending read flex_bending out of bounds for interpolated (trilinear) shells\", \"fix: flex broadphase culled real capsule and cylinder contacts (wrong bounding radius)\"; their trigger inputs run first as regression cases); still present and reported as findings (one stable id per root cause): <edge stiffness/damping> forces missing, 3D flex vs ellipsoid and 1D flex element contacts missing, cylinder-triangle distance wrong (checked against an independent sampled distance), contacts of world-pinned vertices with static geoms, flex gap semantics, spring force of 1D interpolated flexes, stale flex fields of rigid contacts; deep interpenetration of 3D flex elements (> 25% of the element size) is outside the comparable domain (skipped and counted). smooth._flex_vertices/_flex_nodes/_flex_edges and passive._flex_elasticity/_flex_bending are NOT in Gen (the translator rejects the `for f in range(nflex): ... break` idiom whose "
-              "loop variable is used after the loop), the element narrowphase kernels (EPA workspace) neither; they are covered by the differential oracle only. Trusted: Lean kernel + Mathlib, translator.")
-ASSUMPTIONS = ["float32 tolerances: positions/lengths 1e-4 relative, forces 5e-3 relative to the largest reference entry", "flexedge_velocity / flexedge_length compared only where MuJoCo computes them "
+              "loop variable is used after the loop), the element narrowphase kernels (EPA workspace) neither; they are covered by the differential oracle only (so the guard of the curved-reference term of `_flex_bending` cannot be stated as a theorem about Gen; it is exercised by the shell family). Trusted: Lean kernel + Mathlib, translator.")
+ASSUMPTIONS = ["float32 tolerances: positions/lengths 1e-4 relative, forces 5e-3 relative to the largest reference entry (shell family: qfrc_spring 64 eps32 x (max |reference| + max over dofs of "
+               "sum |bending coefficient| |vertex position|), qfrc_damper 1e-4 relative + 1e-7, flexvert_xpos 16 eps32 relative as a precondition)", "flexedge_velocity / flexedge_length compared only where MuJoCo computes them "
                "(C skips edge quantities of interpolated flexes and velocities of flexes without edge equality/damping)",
                "flex-geom contacts other than plane-vertex are compared per (geom, flex) pair by presence and deepest penetration (the two implementations decompose the flex differently by design)"]
 
@@ -179,6 +183,100 @@ def cell_cases(rng, seed):
   return out
 
 
+SHELL_TYPES = ["box", "cylinder", "ellipsoid", "direct", "flat"]
+SHELL_COUNTS = {"box": ["3 3 3", "4 3 3", "3 4 2"], "cylinder": ["4 4 3", "5 5 3", "3 3 4"], "ellipsoid": ["4 4 4", "5 5 5", "5 4 3"]}
+EPS32 = float(np.finfo(np.float32).eps)
+
+
+def _wavy_surface(rng, nx, ny, sp):
+  """points / triangles of an open CURVED sheet z = A sin(kx x + px) cos(ky y + py) (rest dihedral angles of both signs), for <flexcomp type="direct">"""
+  A = rng.uniform(0.5, 0.9) * sp
+  kx, ky = rng.uniform(2.0, 3.5) / (sp * (nx - 1)), rng.uniform(2.0, 3.5) / (sp * (ny - 1))
+  px, py = rng.uniform(0, 2 * np.pi, 2)
+  pts, el = [], []
+  for i in range(nx):
+    for j in range(ny):
+      pts += [i * sp, j * sp, A * np.sin(kx * i * sp + px) * np.cos(ky * j * sp + py)]
+  for i in range(nx - 1):
+    for j in range(ny - 1):
+      a, b, c, d = i * ny + j, (i + 1) * ny + j, (i + 1) * ny + j + 1, i * ny + j + 1
+      el += [a, b, c, a, c, d] if (i + j) % 2 else [a, b, d, b, c, d]
+  return pts, el
+
+
+def shell_cases(rng, seed, n):
+  """dim=2 flexes with bending stiffness whose REST SHAPE IS NOT FLAT (closed box / cylinder / ellipsoid shells, an open wavy sheet given as points+triangles), in rotation with flat grid / disc
+  controls; no contacts, no gravity: the passive stage alone. The rotation (type x elastic2d bend|both x nworld 1|2 x damping x pinned vertex) is a function of the global case index n*seed + k, so
+  that with n = 5 every seed holds all four curved shapes, a flat control and both elastic2d modes."""
+  out = []
+  for k in range(n):
+    idx = n * seed + k
+    typ = SHELL_TYPES[idx % 5]
+    e2d = ["bend", "both"][(idx // 5 + idx % 5) % 2]
+    nworld = 1 + (idx // 2) % 2
+    damped = idx % 3 != 0
+    pinned = idx % 4 == 3
+    sp = float(rng.uniform(0.06, 0.14))
+    q = rng.normal(size=4)
+    q /= np.linalg.norm(q)
+    pos = rng.uniform(-0.3, 0.3, 3)
+    pos[2] += 0.6
+    # bending ~ young * thickness^3, stretching ~ young * thickness: with elastic2d="both" a thick shell keeps the bending part of the force visible next to the membrane part
+    young = float(10 ** rng.uniform(4, 5.3))
+    thick = float(rng.uniform(0.03, 0.05) if e2d == "both" else rng.uniform(0.015, 0.05))
+    if typ == "direct":
+      pts, el = _wavy_surface(rng, int(rng.integers(3, 6)), int(rng.integers(3, 6)), sp)
+      shape, nvert = f'type="direct" point="{_f(pts)}" element="{" ".join(map(str, el))}"', len(pts) // 3
+    elif typ == "flat":
+      ft = ["grid", "disc"][(idx // 5) % 2]
+      cnt = f"{int(rng.integers(3, 6))} {int(rng.integers(3, 6))} 1"
+      shape, nvert = f'type="{ft}" count="{cnt}" spacing="{sp:.4g} {sp:.4g} {sp:.4g}"', 4
+    else:
+      cnt = SHELL_COUNTS[typ][(idx // 5) % 3]
+      shape, nvert = f'type="{typ}" count="{cnt}" spacing="{sp:.4g} {sp:.4g} {sp:.4g}"', 8
+    el_ = f'<elasticity young="{young:.4g}" poisson="{rng.uniform(0, 0.45):.3g}" thickness="{thick:.3g}"' + (f' damping="{rng.uniform(1e-3, 1e-2):.3g}"' if damped else "") + f' elastic2d="{e2d}"/>'
+    pin = f'<pin id="{int(rng.integers(0, nvert))}"/>' if pinned else ""
+    xml = (f'<mujoco><option timestep="0.002"><flag contact="disable" gravity="disable"/></option><worldbody><flexcomp name="F" {shape} dim="2" mass="{rng.uniform(0.3, 2):.3g}" radius="0.01" '
+           f'pos="{_f(pos)}" quat="{_f(q)}">{el_}{pin}<contact selfcollide="none"/></flexcomp></worldbody></mujoco>')
+    out.append(dict(xml=xml, typ=typ, e2d=e2d, nworld=nworld, damped=damped, pinned=pinned, pert=float(rng.uniform(0.002, 0.02)), vel=float(rng.uniform(0.02, 0.2))))
+  return out
+
+
+def _bending_terms(mujoco, mjm, mjd):
+  """NumPy transcription of the two parts of MuJoCo's per-edge bending force (engine_passive.c) mapped to joint space with mj_applyFT:
+  returns (curved-reference part of edges with coefficient > 0, the same for coefficient < 0, cancellation scale sum |coefficient| |position| per dof)"""
+  pos_, neg_, scale = np.zeros(mjm.nv), np.zeros(mjm.nv), np.zeros(mjm.nv)
+  B, X = np.asarray(mjm.flex_bending).reshape(-1), np.asarray(mjd.flexvert_xpos)
+  q, z3 = np.zeros(mjm.nv), np.zeros(3)
+  for f in range(mjm.nflex):
+    if mjm.flex_dim[f] != 2 or mjm.flex_interp[f] or mjm.flex_bendingadr[f] < 0:
+      continue
+    va, ea, ba = int(mjm.flex_vertadr[f]), int(mjm.flex_edgeadr[f]), int(mjm.flex_bendingadr[f])
+    for e in range(int(mjm.flex_edgenum[f])):
+      fl = mjm.flex_edgeflap[ea + e]
+      if fl[1] == -1:
+        continue
+      b = B[ba + 17 * e: ba + 17 * e + 17]
+      v = [va + int(mjm.flex_edge[ea + e][0]), va + int(mjm.flex_edge[ea + e][1]), va + int(fl[0]), va + int(fl[1])]
+      x = X[v]
+      e0, e1, e2 = x[1] - x[0], x[2] - x[0], x[3] - x[0]
+      fr = np.zeros((4, 3))
+      fr[1], fr[2], fr[3] = np.cross(e1, e2), np.cross(e2, e0), np.cross(e0, e1)
+      fr[0] = -(fr[1] + fr[2] + fr[3])
+      for i in range(4):
+        body = int(mjm.flex_vertbodyid[v[i]])
+        q[:] = 0
+        mujoco.mj_applyFT(mjm, mjd, -b[16] * fr[i], z3, x[i], body, q)
+        if b[16] > 0:
+          pos_ += q
+        elif b[16] < 0:
+          neg_ += q
+        q[:] = 0
+        mujoco.mj_applyFT(mjm, mjd, np.abs(b[4 * i: 4 * i + 4]) @ np.abs(x) + abs(b[16]) * np.abs(fr[i]), z3, x[i], body, q)
+        scale += np.abs(q)
+  return pos_, neg_, scale
+
+
 def _contacts_c(mjd):
   rows = []
   for c in mjd.contact[: mjd.ncon]:
@@ -206,6 +304,8 @@ def _run(ctx, ncases, rec):
   import mujoco
   import mujoco_warp as mjw
   rng = np.random.default_rng(ctx.seed * 1000 + 40)
+  rs = np.random.default_rng(ctx.seed * 1000 + 4041)     # own stream of the shell family
+  nshell = 15 if ctx.thorough else 5
   acc = Acc()
 
   def one(c, fixed=None, r=None):
@@ -491,7 +591,79 @@ def _run(ctx, ncases, rec):
       acc.hit("qacc-compared")
     acc.sample({"features": {k: v for k, v in feat.items()}, "nv": int(mjm.nv), "ncon_C": int(mjd.ncon), "ncon_W": len(_contacts_w(d))})
 
+  def shell_one(c, sp):
+    """passive stage of a curved / flat shell, per world, against mj_forward of that world's state; tolerance 64 eps32 x (largest reference entry + cancellation scale of the bending sum)"""
+    import warp as wp
+    try:
+      mjm = mujoco.MjModel.from_xml_string(sp["xml"])
+    except ValueError as e:
+      acc.hit("shell mjcf-rejected:" + str(e).split("\n")[0][:48])
+      return
+    nw = sp["nworld"]
+    mjds = []
+    for w in range(nw):                      # a DIFFERENT state per world
+      mjd = mujoco.MjData(mjm)
+      mjd.qpos[:] = mjm.qpos0 + sp["pert"] * rs.standard_normal(mjm.nq)
+      mjd.qvel[:] = sp["vel"] * rs.standard_normal(mjm.nv)
+      mujoco.mj_forward(mjm, mjd)
+      mjds.append(mjd)
+    try:
+      m = mjw.put_model(mjm)
+    except (NotImplementedError, ValueError) as e:
+      acc.hit("shell put_model-rejected:" + str(e)[:40])
+      return
+    d = mjw.put_data(mjm, mjds[0], nworld=nw)
+    d.qpos = wp.array(np.stack([x.qpos for x in mjds]).astype(np.float32), dtype=float)
+    d.qvel = wp.array(np.stack([x.qvel for x in mjds]).astype(np.float32), dtype=float)
+    mjw.forward(m, d)
+    acc.evals += 1
+    tag = f"shell {sp['typ']} elastic2d={sp['e2d']}"
+    acc.distinct.add((c, tag, nw, sp["damped"], sp["pinned"]))
+    acc.hit(tag)
+    acc.hit(f"shell nworld={nw}")
+    acc.hit(f"shell damping={'on' if sp['damped'] else 'off'} pin={'yes' if sp['pinned'] else 'no'}")
+    b16 = np.asarray(mjm.flex_bending).reshape(-1, 17)[:, 16]
+    interior = np.asarray(mjm.flex_edgeflap)[:, 1] != -1
+    big = np.abs(b16) > 1e-6 * max(np.abs(np.asarray(mjm.flex_bending)).max(), 1e-30)
+    npos, nneg = int((interior & big & (b16 > 0)).sum()), int((interior & big & (b16 < 0)).sum())
+    acc.hit("shell rest shape curved (17th bending coefficient non-zero)" if npos + nneg else "shell rest shape flat (17th bending coefficient zero)")
+    got_x = d.flexvert_xpos.numpy().astype(np.float64)
+    got = {n_: getattr(d, n_).numpy().astype(np.float64) for n_ in ("qfrc_spring", "qfrc_damper", "qfrc_passive")}
+    for w in range(nw):
+      mjd = mjds[w]
+      replay = dict(xml=sp["xml"], qpos=mjd.qpos.tolist(), qvel=mjd.qvel.tolist(), nworld=nw, world=w)
+      dx = float(np.abs(got_x[w] - mjd.flexvert_xpos).max())
+      if not dx <= 16 * EPS32 * (1 + np.abs(mjd.flexvert_xpos).max()):
+        # the input of the passive stage already differs: flex kinematics, not the forces
+        acc.find(f"flexvert_xpos of world {w}/{nw} differs from mj_forward (max |d| {dx:.3g}; {tag})", "smooth._flex_vertices", "flexvert-xpos", **replay)
+        continue
+      cpos, cneg, scale = _bending_terms(mujoco, mjm, mjd)
+      ref = {n_: np.asarray(getattr(mjd, n_), dtype=np.float64) for n_ in got}
+      tol_s = 64 * EPS32 * (np.abs(ref["qfrc_spring"]).max() + scale.max())
+      tol_d = 1e-4 * np.abs(ref["qfrc_damper"]).max() + 1e-7      # velocities carry no large common offset: relative to the largest entry
+      tols = {"qfrc_spring": tol_s, "qfrc_damper": tol_d, "qfrc_passive": tol_s + tol_d}
+      for sign, cv in (("+", cpos), ("-", cneg)):
+        if np.abs(cv).max() > 8 * tol_s:
+          acc.hit(f"shell curved-reference term of edges with coefficient {sign} visible (> 8 x tolerance)")
+      if sp["damped"] and np.abs(ref["qfrc_damper"]).max() > 8 * tol_d:
+        acc.hit("shell bending damper force visible")
+      for n_ in ("qfrc_spring", "qfrc_damper", "qfrc_passive"):
+        res = ref[n_] - got[n_][w]
+        err = float(np.nanmax(np.abs(res))) if not np.isnan(res).all() else float("nan")
+        if not err <= tols[n_]:
+          # diagnosis only (the verdict is the comparison above): does the residual equal the curved-reference part of the edges of one sign?
+          diag = ""
+          for sign, cv in (("positive", cpos), ("negative", cneg), ("non-zero", cpos + cneg)):
+            if n_ != "qfrc_damper" and np.abs(cv).max() > 0 and np.nanmax(np.abs(res - cv)) <= 4 * tols[n_]:
+              diag = f"; the missing force equals the curved-reference term (17th coefficient x gradient of the flap volume) of the edges with {sign} coefficient"
+          acc.find(f"{n_} of world {w}/{nw} differs from mj_forward for a dim=2 flex with bending (max |d| {err:.3g}, tolerance {tols[n_]:.3g}, reference max {np.abs(ref[n_]).max():.3g}; {tag}, "
+                   f"interior edges with 17th coefficient +{npos}/-{nneg}, damping {sp['damped']}, pinned vertex {sp['pinned']}){diag}", "passive.passive", "shell-passive-vs-mujoco", **replay)
+          break
+    acc.sample({"features": {k_: v_ for k_, v_ in sp.items() if k_ != "xml"}, "nv": int(mjm.nv), "curved_edges": [npos, nneg]}, limit=5)
+
   def scenario():
+    for k, fx in enumerate(shell_cases(rs, ctx.seed, nshell)):
+      shell_one(-200 - k, fx)
     for k, fx in enumerate(REGRESSION):
       one(-1 - k, fixed=fx)
       acc.hit("regression-case")
@@ -513,12 +685,15 @@ def _run(ctx, ncases, rec):
   return acc, kc
 
 
-RULE = ("in every run: the repaired-defect regression inputs, then dof=trilinear flexes (dim 2 and 3) with UNEQUAL cellcount per axis in all orders (1 1 2 / 2 1 3 / 3 2 1 / 1 3 2) squeezed between a floor "
+RULE = ("in every run: five contact-free, gravity-free dim=2 shells with bending stiffness (young 1e4..2e5, thickness 0.015..0.05) in rotation over rest shape (flexcomp box / cylinder / ellipsoid / "
+        "direct wavy sheet = curved, grid / disc = flat control) x elastic2d bend|both x nworld 1|2 (a different perturbed qpos/qvel per world) x damping x pinned vertex: flexvert_xpos (precondition), "
+        "qfrc_spring / qfrc_damper / qfrc_passive of every world vs mujoco.mj_forward at float32 resolution; hits record whether the curved-reference term of the edges with positive and with negative "
+        "17th coefficient (NumPy transcription, diagnosis only) exceeds 8 x tolerance; then the repaired-defect regression inputs, then dof=trilinear flexes (dim 2 and 3) with UNEQUAL cellcount per axis in all orders (1 1 2 / 2 1 3 / 3 2 1 / 1 3 2) squeezed between a floor "
         "and a ceiling plane or touched by a sphere (flexvert_xpos to 1e-4 absolute, contacts, qacc); then random <flexcomp type=grid> of dim 1/2/3 (dof full/radial/trilinear/quadratic), random radius/spacing/orientation, <edge equality|stiffness|damping>, <elasticity young poisson damping thickness "
         "elastic2d>, <contact selfcollide internal margin gap condim priority friction solmix contype conaffinity activelayers>, pinned vertices, over a floor plane with 0-3 static or free rigid geoms "
         "(sphere/capsule/box/cylinder/ellipsoid); perturbed qpos, random qvel; forward() vs mujoco.mj_forward: flexvert_xpos, flexedge_length/velocity, qfrc_spring/damper/passive, ne and the multiset of "
         "edge-equality rows, qacc whenever both sides built the same contacts and row count, plane-vertex contacts exactly (geometry and mixed parameters), other flex contacts by presence/deepest penetration per (geom, flex); put_model rejections and overflow are "
-        "counted and skipped; distinct = (case, dim-dof, selfcollide, edge equality, elasticity, geom types)")
+        "counted and skipped; distinct = (case, dim-dof, selfcollide, edge equality, elasticity, geom types) resp. (case, shell type + elastic2d, nworld, damping, pin)")
 
 
 def correspondence(ctx):
